@@ -6,7 +6,7 @@
    validation, cache reading); (c) kernel-checked witnesses that the faithful model RAISES on the listed shapes
    (the re-export cycle that used to recurse without bound is cut since fix 99a8b20: C07_import_resolver_terminates).  Crashes in code that is not modelled can only be met by the
    generated runs of ./check C07, which are testing and are labelled so in the evidence. *)
-From RattrV Require Import Base Str PyAst Naming Context CallSwaps FuncAn Results Imports Annot ImpProofs ResFuel C07Proofs C11Proofs.
+From RattrV Require Import Base Str PyAst Naming Context CallSwaps FuncAn Results Imports Annot ImpProofs ResFuel C07Proofs C11Proofs FaMono C01Complete.
 Open Scope string_scope.
 Open Scope list_scope.
 
@@ -31,6 +31,12 @@ Proof. exact build_tree_total. Qed.
 Theorem C07_annotation_accepts_or_is_fatal :
   forall name_ok pos kw, (exists d, annotation name_ok pos kw = AOk d) \/ annotation name_ok pos kw = AFatal.
 Proof. intros. destruct (annotation name_ok pos kw) as [d|]; [left; exists d; reflexivity|right; reflexivity]. Qed.
+
+(* on the call-free load fragment (proofs/C01Complete.v) the visit always ends normally: neither the fatal
+   diagnostic nor an escaping exception *)
+Theorem C07_call_free_code_never_raises :
+  forall mexists modulename n, CF n -> forall s, fst (visit mexists modulename n s) = Ok tt.
+Proof. intros mexists modulename n Hcf s. exact (proj1 (call_free_loads_are_complete mexists modulename n Hcf s)). Qed.
 
 (* REFUTED: the faithful model raises (finding KF_C07_4) ... *)
 Theorem C07_unnameable_receiver_refuted :
